@@ -153,7 +153,9 @@ static std::string run_enc(const Scheme &sc, const std::string &fam, const Args 
     } else if (fam == "cppba") {
         ascon::aead *c = make_cpp(sc.cppkind, kb.p, k.size());
         c->set_nonce(nb.p, n.size());
-        ascon::byte_array bm(m.begin(), m.end()), bad(ad.begin(), ad.end()), bc;
+        // a reused output array: empty, shorter than, or longer than the result
+        size_t pre = (m.size() + ad.size()) % 3 == 0 ? 0 : ((m.size() + ad.size()) % 3 == 1 ? 7 : m.size() + 16 + 11);
+        ascon::byte_array bm(m.begin(), m.end()), bad(ad.begin(), ad.end()), bc(pre, 0x5a);
         if (ad.empty() && a.num("ba_noad")) c->encrypt(bc, bm); else c->encrypt(bc, bm, bad);
         delete c;
         clen = (long long)bc.size();
@@ -221,7 +223,7 @@ static DecRes run_dec(const Scheme &sc, const std::string &fam, const Args &a,
     } else if (fam == "cppba") {
         ascon::aead *c = make_cpp(sc.cppkind, kb.p, k.size());
         c->set_nonce(nb.p, n.size());
-        ascon::byte_array bc(ct.begin(), ct.end()), bad(ad.begin(), ad.end()), bm(3, 0x77);
+        ascon::byte_array bc(ct.begin(), ct.end()), bad(ad.begin(), ad.end()), bm((ct.size() + ad.size()) % 2 ? ct.size() + 5 : 3, 0x77);
         bool ok = (ad.empty() && a.num("ba_noad")) ? c->decrypt(bm, bc) : c->decrypt(bm, bc, bad);
         delete c;
         r.ret = ok ? 0 : -1; r.mlen = (long long)bm.size();
